@@ -2,6 +2,7 @@ package wl
 
 import (
 	crand "crypto/rand"
+	"errors"
 	"io"
 	"math/big"
 	"runtime"
@@ -26,6 +27,9 @@ type rngTee struct {
 	inner  io.Reader
 	script map[int][][]byte
 	Draws  []rngDraw
+	// failFrom >= 0: the k-th and later draws by /repo callers fail with an error (fault injection at the source)
+	failFrom int
+	Failed   int
 }
 
 var (
@@ -35,7 +39,7 @@ var (
 
 func installTee() *rngTee {
 	teeOnce.Do(func() {
-		tee = &rngTee{inner: crand.Reader, script: map[int][][]byte{}}
+		tee = &rngTee{inner: crand.Reader, script: map[int][][]byte{}, failFrom: -1}
 		crand.Reader = tee
 	})
 	return tee
@@ -51,6 +55,15 @@ func (t *rngTee) Reset() {
 	t.mu.Lock()
 	t.script = map[int][][]byte{}
 	t.Draws = nil
+	t.failFrom = -1
+	t.Failed = 0
+	t.mu.Unlock()
+}
+
+// FailFrom makes the k-th (0-based) and later draws by /repo callers return an error.
+func (t *rngTee) FailFrom(k int) {
+	t.mu.Lock()
+	t.failFrom = k
 	t.mu.Unlock()
 }
 
@@ -83,6 +96,11 @@ func repoCaller() string {
 func (t *rngTee) Read(p []byte) (int, error) {
 	caller := repoCaller()
 	t.mu.Lock()
+	if caller != "" && t.failFrom >= 0 && len(t.Draws)+t.Failed >= t.failFrom {
+		t.Failed++
+		t.mu.Unlock()
+		return 0, errOSRandom
+	}
 	q := t.script[len(p)]
 	scripted := false
 	if len(q) > 0 && caller != "" {
@@ -106,6 +124,8 @@ func (t *rngTee) Read(p []byte) (int, error) {
 
 // findExponent searches e (starting from a PRNG-chosen point, stepping by 1 with one modular
 // multiplication per trial) such that base^e mod p, as 256 bytes, begins with exactly `zeros` zero bytes.
+var errOSRandom = errors.New("injected: the OS random source is unavailable")
+
 func findExponent(base *big.Int, start []byte, zeros int, maxTrials int) *big.Int {
 	e := new(big.Int).SetBytes(start)
 	v := new(big.Int).Exp(base, e, mtp.DHPrime)
